@@ -22,3 +22,19 @@ class CatalogEntry { public:
     return true;
   }
 }; }
+
+// R-C01-6: the table cursor is not advanced on the continue path
+int count_volumes_bad(const unsigned char *table)
+{
+  int found = 0;
+  unsigned offset = 8;
+  for (int i = 0; i < 8; ++i)
+    {
+      const unsigned track = table[offset];
+      if (track == 0)
+	continue;			// BAD: offset stays, every later slot is skipped too
+      ++found;
+      offset += 2u;
+    }
+  return found;
+}
